@@ -301,7 +301,12 @@ def random_program(rng, maxops=10, maxlen=40, start=None):
         else:
             op = rng.choice([{"k": "slice_index", "start": rng.randint(0, n - 1), "stop": rng.choice([NONEINT, rng.randint(1, n)]), "step": rng.choice([1, 2, -1])},
                              {"k": "slice_value", "start": R(sim.x[rng.randrange(n)]) if n and all(v.denominator in (1, 2, 4, 8, 16) for v in sim.x) else NONE, "stop": NONE},
-                             {"k": "get"}, {"k": "len"}, {"k": "to_2d_array"}] + ([{"k": "to_function"}] if n >= 5 else []))
+                             {"k": "get"}, {"k": "len"}, {"k": "to_2d_array"},
+                             {"k": "poke", "i": rng.randrange(n), "d": R(Fraction(rng.choice([-3, 1, 2, 5]), 2))},
+                             {"k": "poke", "i": rng.randrange(n), "d": R(Fraction(rng.choice([-3, 1, 2, 5]), 2))}]
+                            + ([{"k": "to_function"}] if n >= 5 else []))
+            if op["k"] == "poke":
+                reshaped = True
         ops.append(op)
         sim_apply(sim, op)
         if len(sim.x) < 4:
